@@ -1995,6 +1995,101 @@ theorem link_step_src (cfg : CheckCfg) (hst : cfg.stave = false) (lv : SrcLinkRd
     · rw [h4]; cases hr : cfg.running <;> simp [List.append_assoc]
     · rw [h2]; split <;> rfl
 
+/-! ### a whole link history -/
+/-- one packet through the two translated parts, on ONE message list (the two validators hold clones of the same channel and run in the same
+    thread, one after the other): the composition that `LinkValidator::do_checks` performs, written out by hand -/
+def srcLinkStep (cfg : CheckCfg) (st : SrcLinkRdh.LinkValidator × SrcLink.CdpRunningValidator) (p : SrcRdh.RdhCru × Nat × Bytes) :
+    SrcLinkRdh.LinkValidator × SrcLink.CdpRunningValidator :=
+  let lv1 := (st.1.do_rdh_checks p.1 p.2.1).2
+  let cv0 := { st.2 with f_out := lv1.f_out }
+  let cv1 := if cfg.itsChecks && !p.2.2.isEmpty then SrcLink.do_payload_checks (p.1, p.2.2, p.2.1) cv0 else cv0
+  ({ lv1 with f_out := cv1.f_out }, cv1)
+
+/-- source validators standing for a model link state -/
+structure LinkRel (cfg : CheckCfg) (st : SrcLinkRdh.LinkValidator × SrcLink.CdpRunningValidator) (s : LinkSt) : Prop where
+  run : st.1.f_running_checks = cfg.running
+  san : st.1.f_rdh_sanity_validator = SrcTie.mkValidator s.expectId (if cfg.itsChecks then some 32 else none)
+  abs : SrcTie.runAbs st.1.f_rdh_running_validator = s.run
+  wf : SrcTie.RunWf st.1.f_rdh_running_validator
+  cdp : SrcTie.AbsR cfg st.2 s.cdp
+
+/-- what the theorems need of a packet: header fields as loaded (16-bit FEE ID and CRU/DW word), sizes and offsets below the `u16` word
+    counter and the 64-bit address space -/
+def PacketOk (p : SrcRdh.RdhCru × Nat × Bytes) : Prop :=
+  p.1.f_rdh0.f_fee_id.f_0 < 65536 ∧ p.1.f_cruid_dw.f_0 < 65536 ∧ p.2.2.length < 2^64 ∧ p.2.1 + 64 + 65536 * 16 < 2^64 ∧
+  ∀ ws, cutPayload p.2.2 = some ws → ws.length < 65536
+
+def toPacket (p : SrcRdh.RdhCru × Nat × Bytes) : Packet := { offset := p.2.1, rdh := SrcTie.toModel p.1, payload := p.2.2 }
+
+theorem absR_out (cfg : CheckCfg) (v : SrcLink.CdpRunningValidator) (s : CdpSt) (o : List Rs.Report) (h : SrcTie.AbsR cfg v s) :
+    SrcTie.AbsR cfg { v with f_out := o } s := ⟨h.running, h.period, h.fsm, h.ihw, h.tdhs, h.tdt, h.ddw0, h.cdw⟩
+
+theorem src_link_step (cfg : CheckCfg) (hst : cfg.stave = false) (st : SrcLinkRdh.LinkValidator × SrcLink.CdpRunningValidator) (s : LinkSt)
+    (p : SrcRdh.RdhCru × Nat × Bytes) (hr : LinkRel cfg st s) (hp : PacketOk p)
+    (s' : LinkSt) (ms : List Msg) (hok : linkStep cfg s (toPacket p) = .ok (s', ms)) :
+    LinkRel cfg (srcLinkStep cfg st p) s' ∧
+    SrcTie.outMsgs (srcLinkStep cfg st p).1.f_out = SrcTie.outMsgs st.1.f_out ++ ms ∧
+    (srcLinkStep cfg st p).2.f_out = (srcLinkStep cfg st p).1.f_out := by
+  obtain ⟨lv, cv⟩ := st
+  obtain ⟨c, off, payload⟩ := p
+  obtain ⟨hfee, hcd, hpl, hoff, hlen⟩ := hp
+  have hcv0 := absR_out cfg cv s.cdp (lv.do_rdh_checks c off).2.f_out hr.cdp
+  obtain ⟨mA, mB, rfl, oA, hsan', habs', hwf', hcdp', oB⟩ :=
+    link_step_src cfg hst lv { cv with f_out := (lv.do_rdh_checks c off).2.f_out } s c off payload hr.run hr.san hr.abs hr.wf hfee hcd hcv0
+      hpl hoff hlen s' _ hok
+  have hrun' : (lv.do_rdh_checks c off).2.f_running_checks = cfg.running :=
+    (SrcTie.do_rdh_checks_eq cfg lv s c off _ hr.run hr.san hr.abs hr.wf hfee hcd).1
+  refine ⟨⟨hrun', hsan', habs', hwf', hcdp'⟩, ?_, rfl⟩
+  simp only [srcLinkStep]
+  rw [oB, oA, List.append_assoc]
+
+/-- **a whole link history, model = translated source** (non-stave configurations): for every sequence of packets of one link, from
+    related states, whenever the model's `linkRun` does not stop at a panic site, folding the source's per-packet step over the sequence
+    leaves related states and has sent exactly the model's messages, in the model's order. Every theorem of C01, C02, C07, C09–C12
+    about `linkRun` is thereby a statement about these source functions. -/
+theorem link_run_src (cfg : CheckCfg) (hst : cfg.stave = false) (ps : List (SrcRdh.RdhCru × Nat × Bytes)) :
+    ∀ (st : SrcLinkRdh.LinkValidator × SrcLink.CdpRunningValidator) (s s' : LinkSt) (ms : List Msg), LinkRel cfg st s →
+    (∀ p ∈ ps, PacketOk p) → linkRun cfg s (ps.map toPacket) = .ok (s', ms) →
+    LinkRel cfg (ps.foldl (srcLinkStep cfg) st) s' ∧
+    SrcTie.outMsgs (ps.foldl (srcLinkStep cfg) st).1.f_out = SrcTie.outMsgs st.1.f_out ++ ms := by
+  induction ps with
+  | nil =>
+    intro st s s' ms hr _ hok
+    simp only [List.map_nil, linkRun, Except.ok.injEq, Prod.mk.injEq] at hok
+    obtain ⟨rfl, rfl⟩ := hok
+    exact ⟨hr, by simp⟩
+  | cons p ps ih =>
+    intro st s s' ms hr hpk hok
+    simp only [List.map_cons, linkRun] at hok
+    cases h1 : linkStep cfg s (toPacket p) with
+    | error e => rw [h1] at hok; cases hok
+    | ok r1 =>
+      obtain ⟨s1, m1⟩ := r1
+      rw [h1] at hok
+      simp only at hok
+      cases h2 : linkRun cfg s1 (ps.map toPacket) with
+      | error e => rw [h2] at hok; cases hok
+      | ok r2 =>
+        obtain ⟨s2, m2⟩ := r2
+        rw [h2] at hok
+        simp only [Except.ok.injEq, Prod.mk.injEq] at hok
+        obtain ⟨rfl, rfl⟩ := hok
+        obtain ⟨r1', o1, _⟩ := src_link_step cfg hst st s p hr (hpk p (by simp)) s1 m1 h1
+        obtain ⟨r2', o2⟩ := ih (srcLinkStep cfg st p) s1 s2 m2 r1' (fun q hq => hpk q (by simp [hq])) h2
+        exact ⟨r2', by rw [List.foldl_cons, o2, o1, List.append_assoc]⟩
+
+/-- the hypotheses of `link_run_src` are met at the start: freshly constructed validators (`RdhCruSanityValidator::new_from_config` as tied
+    in C10 `validator_for_config_src`, `RdhCruRunningChecker::new`, a `CdpRunningValidator` with the default state machine and an empty
+    status-word container) stand for the model's initial link state -/
+theorem link_rel_init (cfg : CheckCfg) (tr : SrcState.CdpTracker) (rv : SrcState.ItsRdhValidator) :
+    LinkRel cfg
+      ({ f_running_checks := cfg.running, f_out := [], f_rdh_running_validator := SrcRdh.RdhCruRunningChecker.new,
+         f_rdh_sanity_validator := SrcTie.mkValidator cfg.customRdhVersion (if cfg.itsChecks then some 32 else none) },
+       { f_running_checks_enabled := cfg.running, f_trigger_period := cfg.triggerPeriod, f_its_state_machine := SrcFsm.initial,
+         f_tracker := tr, f_rdh_validator := rv, f_status_words := SrcState.StatusWordContainer.new_const, f_out := [] })
+      (LinkSt.init cfg) :=
+  ⟨rfl, rfl, SrcTie.run_new.1, SrcTie.run_new.2, SrcTie.absR_init cfg tr rv⟩
+
 /-- non-vacuity: a freshly built source validator stands for the model's state at the first word of a packet -/
 example : SrcTie.Abs { running := true }
     { f_running_checks_enabled := true, f_tracker := { f_payload_mem_pos := 64, f_gbt_word_counter := 1, f_gbt_word_padding_size_bytes := 0, f_is_start_of_data := true },
